@@ -118,6 +118,10 @@ pub(crate) fn validate(input: &DataType) -> Result<()> {
                 validate_dedicated_member_attrs(&member_attrs.parent_attrs, |x| x.container_ty.as_ref(), Some("parent"), member_span, &type_paths, &mut errors);
 
                 validate_parent_attrs(input.named_fields(), &member_attrs.parent_attrs, &data_type_attrs_by_kind, &mut errors);
+
+                if f.ty.is_none() && member_attrs.parent_attrs.iter().any(|p| p.child_fields.is_some() && data_type_attrs_by_kind.iter().any(|(x, kind)| kind.is_from() && (p.container_ty.is_none() || &x.ty == p.container_ty.as_ref().unwrap()))) {
+                    errors.insert(format!("Type of member {} should be a path to a struct: #[parent(...)] constructs it in 'from' conversions.", f.member.to_token_stream()), f.member.span());
+                }
             },
             DataTypeMember::Variant(v) => {
                 bark_at_member_attr(&member_attrs.parent_attrs, "parent", |_| v.ident.span(), &mut errors);
